@@ -61,7 +61,7 @@ func (e *Engine) newCtx(fn *ssa.Function, spec *FuncSpec, mode string) *FnCtx {
 		eng: e, sc: sc, ty: NewTypes(sc), fn: fn, spec: spec, mode: mode,
 		assumed: map[string]bool{}, unmodelled: map[string]bool{}, inlined: map[string]bool{},
 		obSeq: map[string]int{}, ghostDecl: map[string]bool{}, maxDepth: 8,
-		nonNil: map[string]bool{}, ranges: map[string]*rangeState{}, lastCall: map[string]Val{}, sliceLen: map[string]string{}, intUB: map[string]int{},
+		nonNil: map[string]bool{}, ranges: map[string]*rangeState{}, lastCall: map[string]Val{}, sliceLen: map[string]string{}, intUB: map[string]int{}, guardOf: map[string]string{}, guardSub: map[string]*guardInfo{}, constCell: map[string]Val{}, writeOnce: map[string]bool{},
 	}
 	return c
 }
@@ -123,6 +123,18 @@ func (e *Engine) VerifyFunc(spec *FuncSpec, mode string, kf *KnownFindings) *FnR
 		}
 		if !c.newComps {
 			rep.Obs = c.obs
+			if only := spec.Options["only"]; only != "" {
+				// a contract that only serves one discipline (e.g. `option only guard lock`) keeps those obligations
+				var keep []*Obligation
+				for _, o := range c.obs {
+					for _, k := range strings.Fields(only) {
+						if o.Kind == k {
+							keep = append(keep, o)
+						}
+					}
+				}
+				rep.Obs = keep
+			}
 			rep.Assumed = keys(c.assumed)
 			rep.Unmodelled = keys(c.unmodelled)
 			rep.Inlined = keys(c.inlined)
@@ -183,6 +195,10 @@ func (c *FnCtx) runTop(rep *FnReport, kf *KnownFindings) (err error) {
 		fr.names[k] = v
 	}
 	c.eng.ghostEntry(c, fr, st)
+	if _, ok := c.eng.comps["ghost$lock"]; ok && spec.Options["locks"] != "caller" {
+		// a function under contract is an entry point: this goroutine holds no lock when it is called
+		c.sc.Assume("(forall ((m Int)) (! (= (select " + c.heapGet(st, "ghost$lock") + " m) 0) :pattern ((select " + c.heapGet(st, "ghost$lock") + " m))))")
+	}
 	// letold bindings are evaluated in the entry state
 	for _, l := range spec.Lets {
 		if l.Old {
@@ -312,7 +328,7 @@ func (e *Engine) VerifyLemma(lm *LemmaSpec) *FnReport {
 	rep := &FnReport{Name: strings.TrimPrefix(strings.TrimPrefix(lm.Pkg, e.module+"/"), "pkg/") + ".lemma." + lm.Name}
 	for pass := 0; pass < 4; pass++ {
 		sc := NewScript()
-		c := &FnCtx{eng: e, sc: sc, ty: NewTypes(sc), assumed: map[string]bool{}, unmodelled: map[string]bool{}, inlined: map[string]bool{}, obSeq: map[string]int{}, ghostDecl: map[string]bool{}, nonNil: map[string]bool{}, ranges: map[string]*rangeState{}, lastCall: map[string]Val{}, sliceLen: map[string]string{}, intUB: map[string]int{}}
+		c := &FnCtx{eng: e, sc: sc, ty: NewTypes(sc), assumed: map[string]bool{}, unmodelled: map[string]bool{}, inlined: map[string]bool{}, obSeq: map[string]int{}, ghostDecl: map[string]bool{}, nonNil: map[string]bool{}, ranges: map[string]*rangeState{}, lastCall: map[string]Val{}, sliceLen: map[string]string{}, intUB: map[string]int{}, guardOf: map[string]string{}, guardSub: map[string]*guardInfo{}, constCell: map[string]Val{}, writeOnce: map[string]bool{}}
 		rep.ctx = c
 		err := func() (err error) {
 			defer func() {
